@@ -13,7 +13,12 @@ import (
 
 // NewCharacteristicNotification returns an notification response for a characteristic from an accessory.
 func NewCharacteristicNotification(a *accessory.Accessory, c *characteristic.Characteristic) (*http.Response, error) {
-	body, err := Body(a, c)
+	return NewCharacteristicValueNotification(a, c, c.Value)
+}
+
+// NewCharacteristicValueNotification returns an notification response for a value of a characteristic from an accessory.
+func NewCharacteristicValueNotification(a *accessory.Accessory, c *characteristic.Characteristic, value interface{}) (*http.Response, error) {
+	body, err := BodyWithValue(a, c, value)
 	if err != nil {
 		return nil, err
 	}
@@ -50,8 +55,13 @@ func FixProtocolSpecifier(b []byte) []byte {
 
 // Body returns the json body for an notification response as bytes.
 func Body(a *accessory.Accessory, c *characteristic.Characteristic) (*bytes.Buffer, error) {
+	return BodyWithValue(a, c, c.Value)
+}
 
-	ch := data.Characteristic{AccessoryID: a.ID, CharacteristicID: c.ID, Value: c.Value}
+// BodyWithValue returns the json body for an notification response with a value as bytes.
+func BodyWithValue(a *accessory.Accessory, c *characteristic.Characteristic, value interface{}) (*bytes.Buffer, error) {
+
+	ch := data.Characteristic{AccessoryID: a.ID, CharacteristicID: c.ID, Value: value}
 	chars := data.Characteristics{[]data.Characteristic{ch}}
 	result, err := json.Marshal(chars)
 	if err != nil {
